@@ -1,6 +1,7 @@
 #!/bin/sh
-# evaluate every behaviour-preserving patch of /verif/benign against all (or the given) checks; 4 patches in parallel
+# evaluate every behaviour-preserving patch of /verif/benign (or those matching $PAT) against all (or the given) checks; $JOBS patches in parallel
 cd "$(dirname "$0")/.."
-ls benign/*.diff | grep "${PAT:-.}" | xargs -P ${JOBS:-4} -I{} sh -c 'python3-vt tool/benign_eval.py {} '"$*"' > /tmp/benign-$(basename {}).log 2>&1'
-for f in benign/*.diff; do b=$(basename $f); [ -f /tmp/benign-$b.log ] && grep -v "^WARN" /tmp/benign-$b.log | cut -c1-${WIDTH:-240}; done
-rm -f /tmp/benign-*.log
+L=$(mktemp -d /tmp/benign-logs.XXXXXX)
+ls benign/*.diff | grep "${PAT:-.}" | xargs -P ${JOBS:-4} -I{} sh -c 'python3-vt tool/benign_eval.py {} '"$*"' > '"$L"'/$(basename {}).log 2>&1'
+for f in $(ls benign/*.diff | grep "${PAT:-.}"); do b=$(basename $f); [ -f $L/$b.log ] && grep -v "^WARN" $L/$b.log | cut -c1-${WIDTH:-240}; done
+rm -rf "$L"
